@@ -72,6 +72,13 @@ def odd_symbol(name):
     return any(ch in SPECIAL for ch in name)
 
 
+def rpnorm(s):
+    """the REPL reader returns no expressions unless the entry is complete: compare the status only then"""
+    if s is None or s.startswith("D"):
+        return s
+    return s[:1]
+
+
 def main(argv):
     c = Check("C12", argv)
     rc, log = translate("lexregex", "LexTables.v")
@@ -116,10 +123,10 @@ def main(argv):
                     if kind == "scr":
                         stats["scr"] = stats.get("scr", 0) + 1
                     im, mo, sp = fields(impl), fields(model), fields(spec)
-                    agrees = im.get("P") == mo.get("P") and im.get("R") == mo.get("R") and "BADTOK" not in model
+                    agrees = im.get("P") == mo.get("P") and im.get("R") == mo.get("R") and rpnorm(im.get("RP")) == rpnorm(mo.get("RP")) and "BADTOK" not in model
                     if not agrees:
-                        corr_fail.append({"input": inp, "printed": text_of(im.get("P")), "implementation": "P=%s ;; R=%s" % (im.get("P"), im.get("R")),
-                                          "model": model, "what": "printed bytes (SexpString vs print) / parse of the printed text (vs lex_all + parse_whole)"})
+                        corr_fail.append({"input": inp, "printed": text_of(im.get("P")), "implementation": "P=%s ;; R=%s ;; RP=%s" % (im.get("P"), im.get("R"), im.get("RP")),
+                                          "model": model, "what": "printed bytes (SexpString vs print) / parse of the printed text (vs lex_all + parse_whole) / the REPL reader on the printed text (RP, vs parse_pieces over its lines)"})
                     if mo.get("EV", "-") != "-" and im.get("E") != mo["EV"]:
                         agrees = False
                         corr_fail.append({"input": inp, "printed": text_of(im.get("P")), "implementation": "E=%s" % im.get("E"), "model": "EV=%s" % mo["EV"],
@@ -132,6 +139,8 @@ def main(argv):
                     fails = []
                     if sp.get("R", "-") != "-" and im.get("R") != sp["R"]:
                         fails.append(("data route: parse of (str v)", im.get("R"), sp["R"]))
+                    if sp.get("R", "-") != "-" and im.get("RP") != sp["R"]:
+                        fails.append(("data route at the REPL front end: the printed text typed line by line", im.get("RP"), sp["R"]))
                     if sp.get("E", "-") != "-":
                         if im.get("E") != sp["E"]:
                             fails.append(("evaluated route: EvalString of (str v)", im.get("E"), sp["E"]))
@@ -192,6 +201,11 @@ def main(argv):
                                               "kind": "a numeric literal is read with a value other than its exact mathematical value"})
                     elif v == "ERR":
                         stats["lit_rejected"] += 1
+                        # a well-formed literal (no underscores) of a supported notation whose exact value is in range must be accepted
+                        if ref[:2] in ("I ", "U ", "F ") and "_" not in spelling:
+                            prop_fail.append({"input": inp, "spelling": spelling, "implementation": v, "specification": ref, "reference": "math/big reference",
+                                              "agrees_with_model": v == model, "finding": None,
+                                              "kind": "a well-formed numeric literal whose value is in range is rejected by the reader"})
                     else:
                         stats["lit_not_number"] += 1
                         if ref[:2] in ("I ", "U ", "F ") and "_" not in spelling:
